@@ -89,7 +89,8 @@ contract("HpcSubmitter._log_submission_event", kind="assumed",
 
 contract("HpcSubmitter._submit_batch", file=F,
          params=[("self", "Ref[HpcSubmitter]"), ("queue", "Ref[JobQueue]"), ("submission_group", "Ref[SubmissionGroup]"), ("batch", "Ref[_BatchJobs]")],
-         requires=["Inv_cap(queue)", "nout(queue) < queue._queue_depth", "len(queue._queued_jobs) == 0", "Inv_ids(queue)"],
+         requires=["Inv_cap(queue)", "nout(queue) < queue._queue_depth", "len(queue._queued_jobs) == 0", "Inv_ids(queue)",
+                   "len(batch._jobs) >= 1"],          # C07: a batch handed to the scheduler contains at least one job
          ensures=[
              "Inv_ids(queue)",
              "self._batch_index == old(self._batch_index) + 1",
